@@ -260,9 +260,9 @@ ChildPlan World::OnSpawn(Kernel& kk, const std::string& cmd, bool console) {
   {
     int running = (int)live.size() + 1;
     int eff_j = r.plan.j > 0 ? r.plan.j : (r.plan.j == 0 ? 1 << 30 : r.plan.nproc + 2);
-    if (!r.plan.jobserver && running > eff_j)
+    if (!r.plan.JsActive() && running > eff_j)
       Report("C06", "limit_exceeded", std::to_string(running) + " commands running with -j" + std::to_string(eff_j));
-    if (r.plan.jobserver && r.plan.j < 0 && running > 1 + tokens_held)
+    if (r.plan.JsActive() && r.plan.j < 0 && running > 1 + tokens_held)
       Report("C06", "limit_exceeded", std::to_string(running) + " commands running while holding " + std::to_string(tokens_held) + " jobserver tokens");
     // -l N: a further command is only started while N minus the load average
     // leaves room; the simulated load is never below the number of running commands
@@ -278,7 +278,7 @@ ChildPlan World::OnSpawn(Kernel& kk, const std::string& cmd, bool console) {
       if (depth > 0 && in_pool == depth) stats->n["pool_full"]++;
     }
     if (running == eff_j) stats->n["j_full"]++;
-    if (r.plan.jobserver && running == 1 + tokens_held && running > 1) stats->n["tokens_full"]++;
+    if (r.plan.JsActive() && running == 1 + tokens_held && running > 1) stats->n["tokens_full"]++;
     for (auto& q : r.spawns) if (q.stmt == id && q.epoch == epoch)
       Report("C06", "ran_twice", "statement " + std::to_string(id) + " started twice in one invocation");
   }
@@ -320,7 +320,8 @@ ChildPlan World::OnSpawn(Kernel& kk, const std::string& cmd, bool console) {
   else if (s.deps_kind == 2) rec.reported_deps = rs;
   if (s.deps_kind == 3) {
     std::string o;
-    for (auto& h : hidden) o += "Note: including file: " + h + "\n";
+    for (auto& h : hidden) o += MsvcPrefix(s) + h + "\n";
+    if (MsvcPrefix(s) != "Note: including file: ") stats->n["msvc_custom_prefix"]++;
     if (r.plan.garbage_child_output) {
       // compiler output parsed for /showIncludes can be anything
       int nl = 1 + (int)tape->Choice(st_stream, 4);
@@ -562,15 +563,40 @@ InvRecord World::RunInvocation(const InvPlan& plan) {
   for (auto& t : plan.targets) a.push_back(t);
   sp.argv = a;
   sp.env["TERM"] = plan.tty ? "xterm" : "dumb";
+  if (plan.color_env & 1) sp.env["NO_COLOR"] = "1"; else if (plan.color_env & 8) sp.env["NO_COLOR"] = "0";
+  if (plan.color_env & 2) sp.env["CLICOLOR_FORCE"] = "1"; else if (plan.color_env & 16) sp.env["CLICOLOR_FORCE"] = "0";
+  if (plan.color_env & 4) sp.env["FORCE_COLOR"] = "yes"; else if (plan.color_env & 32) sp.env["FORCE_COLOR"] = "0";
+  if (plan.color_env) stats->n["colour_env_set"]++;
   sp.tty.stdout_tty = plan.tty;
   sp.tty.cols = plan.cols;
   sp.faults = plan.fp;
   sp.faults.stream = plan.stream;
   sp.nproc = plan.nproc;
   sp.record_stats = plan.record_sys;
+  if (!plan.jobserver && !plan.makeflags.empty()) { sp.env["MAKEFLAGS"] = plan.makeflags; stats->n["makeflags_garbage"]++; }
   if (plan.jobserver) {
     k.MkFifo("js.fifo", std::string((size_t)plan.js_tokens, '+'));
-    sp.env["MAKEFLAGS"] = " -j" + std::to_string(plan.js_tokens + 1) + " --jobserver-auth=fifo:js.fifo";
+    {
+      // MAKEFLAGS as different makes and wrappers spell it. 0-3 all name the fifo pool (the last
+      // recognised option wins, tabs separate too, the first word is make's flag letters); 4-8 tell
+      // ninja not to be a client: 'n' among the flag letters, a later auth=-1,-1, the unsupported
+      // pipe form (warning), a fifo that cannot be opened (error message, build goes on), -j given.
+      std::string jn = " -j" + std::to_string(plan.js_tokens + 1);
+      std::string mf;
+      switch (plan.js_variant) {
+        default: mf = jn + " --jobserver-auth=fifo:js.fifo"; break;
+        case 1: mf = "ks" + jn + " --jobserver-fds=3,4 --jobserver-auth=fifo:js.fifo"; break;
+        case 2: mf = "\t" + jn.substr(1) + "\t\t--jobserver-auth=fifo:js.fifo  "; break;
+        case 3: mf = "--jobserver-fds=8,9 --jobserver-auth=-1,-1 --jobserver-auth=fifo:js.fifo"; break;
+        case 4: mf = "kn" + jn + " --jobserver-auth=fifo:js.fifo"; break;
+        case 5: mf = jn + " --jobserver-auth=fifo:js.fifo --jobserver-auth=-1,-1"; break;
+        case 6: mf = jn + " --jobserver-auth=fifo:js.fifo --jobserver-auth=3,4"; break;
+        case 7: mf = jn + " --jobserver-auth=fifo:no/such.fifo"; break;
+        case 8: mf = jn + " --jobserver-auth=fifo:js.fifo"; break;   // with -j on the command line
+      }
+      sp.env["MAKEFLAGS"] = mf;
+      if (plan.js_variant) stats->n["makeflags_variant_" + std::to_string(plan.js_variant)]++;
+    }
     r.tokens_before = plan.js_tokens;
     // other clients of the same pool: take a token when one is there, give it back later
     peer_holding = 0;
